@@ -22,6 +22,7 @@ necessary to account for:
     may also differ.
 """
 
+from copy import copy
 from math import pi
 
 from tangelo.toolboxes.operators import QubitOperator
@@ -92,7 +93,9 @@ def translate_c_to_cirq(source_circuit, noise_model=None, save_measurements=Fals
     measure_count = 0
 
     # Maps the gate information properly. Different for each backend (order, values)
-    for gate in source_circuit._gates:
+    for source_gate in source_circuit._gates:
+        # Work on a copy: a multi-controlled CNOT is renamed below, the source circuit must not be altered
+        gate = copy(source_gate)
         if gate.control is not None:
             num_controls = len(gate.control)
             control_list = [qubit_list[c] for c in gate.control]
